@@ -22,6 +22,9 @@ type hStep struct {
 	Events []string // converted events of this step
 	Writes int      // Write calls of the outermost writer during this step
 	Fresh  Obs      // render: the same segment replayed on a new context
+
+	retained []byte // the slice Render returned, kept without copying
+	Altered  string // non-empty: what the retained slice had become by the end of the history
 }
 
 type history struct {
@@ -31,6 +34,8 @@ type history struct {
 	Flits   map[string]float64
 	Budget  int
 	Verdict []string
+	// UseRender: every other render goes through Render (not Write) and keeps the returned slice
+	UseRender bool
 }
 
 // logWriter marks every Write call of the outermost writer in the harness log.
@@ -139,7 +144,21 @@ func (h *history) run() {
 	for i, s := range h.Steps {
 		switch s.Kind {
 		case "render":
-			s.Obs, s.Events, s.Writes = renderOnW(ctx, s.Key, s.IC.vc.Data)
+			if h.UseRender && i%2 == 1 {
+				harnessLog.take()
+				key, data := s.Key, s.IC.vc.Data
+				var ret []byte
+				s.Obs = guarded(5*time.Second, func() ([]byte, error) {
+					data.Apply(ctx)
+					out, err := dyntpl.Render(key, ctx)
+					ret = out
+					return out, err
+				})
+				s.retained = ret
+				s.Events = convertEvents(harnessLog.take())
+			} else {
+				s.Obs, s.Events, s.Writes = renderOnW(ctx, s.Key, s.IC.vc.Data)
+			}
 			last = i
 		case "reset", "release":
 			if last >= segStart {
@@ -158,6 +177,12 @@ func (h *history) run() {
 	}
 	dyntpl.ReleaseCtx(ctx)
 	harnessLog.take()
+	// bytes handed out by earlier renders must still read the same
+	for _, s := range h.Steps {
+		if s.retained != nil && !bytes.Equal(s.retained, s.Obs.Out) {
+			s.Altered = string(s.retained)
+		}
+	}
 }
 
 func (h *history) gallina(id int) string {
